@@ -9,6 +9,7 @@ import Anndb.Drive.Cluster
 import Anndb.Drive.Catalogue
 import Anndb.Drive.Wedge
 import Anndb.Drive.Simd
+import Anndb.Drive.Rpc
 /-! `driver <engine>`: the executable Lean models behind a one-line-in, one-line-out protocol. -/
 def main (args : List String) : IO UInt32 := do
   let h ← IO.getStdin
@@ -25,4 +26,5 @@ def main (args : List String) : IO UInt32 := do
   | ["catalogue"] => Anndb.Drive.Catalogue.main h out; return 0
   | ["wedge"] => Anndb.Drive.Wedge.main h out; return 0
   | ["simd"] => Anndb.Drive.Simd.main h out; return 0
+  | ["rpc"] => Anndb.Drive.Rpc.main h out; return 0
   | _ => IO.eprintln "usage: driver <engine>"; return 2
